@@ -24,10 +24,10 @@ META = dict(
     assumptions=['no wall-clock value enters a verdict: timeouts are driven by a virtual clock',
                  'the lifecycle automaton (REF-FSM) is the trusted model'],
     min_events={'quick': {'step_limit_runs': 8000, 'timeout_runs': 3000, 'timeouts_raised': 800, 'idempotence_checks': 2000,
-                          'locked_mutations_checked': 3000, 'interleavings': 1000, 'logics': 57},
-                'thorough': {'step_limit_runs': 150000, 'timeout_runs': 60000, 'timeouts_raised': 15000, 'logics': 57}},
-    budget=dict(quick=420, thorough=3000),
-    unit_timeout=dict(quick=330, thorough=2400),
+                          'locked_mutations_checked': 3000, 'interleavings': 1000, 'logics': 52},
+                'thorough': {'step_limit_runs': 150000, 'timeout_runs': 60000, 'timeouts_raised': 15000, 'logics': 52}},
+    budget=dict(quick=1500, thorough=3000),
+    unit_timeout=dict(quick=900, thorough=3000),
 )
 NPROOFS = dict(quick=16, thorough=150)
 
